@@ -49,6 +49,7 @@ ConfigPaths = Union[None, FilePath, Sequence[FilePath]]
 
 _token_pattern = re.compile(r'%(.)')
 _env_pattern = re.compile(r'\${(.*?)}')
+_expansion_pattern = re.compile(r'%(.)|\${(.*?)}')
 _unsafe_user_pattern = re.compile(r'^\.\.$|^~|^[A-Za-z]:|[/\\]|\$\{.*?\}')
 
 
@@ -149,7 +150,7 @@ class SSHConfig:
         """Expand an environment variable reference"""
 
         try:
-            var = match.group(1)
+            var = match.group(match.lastindex)
             return os.environ[var]
         except KeyError:
             raise ConfigParseError('Invalid environment expansion: ' +
@@ -158,8 +159,16 @@ class SSHConfig:
     def _expand_val(self, value: str) -> str:
         """Perform percent token and environment expansion on a string"""
 
-        return _env_pattern.sub(self._expand_env,
-                                _token_pattern.sub(self._expand_token, value))
+        # Like OpenSSH, make a single pass over the value so that
+        # neither a token value nor an environment value is itself
+        # subject to further expansion
+        def _expand(match):
+            """Expand one percent token or environment variable reference"""
+
+            return self._expand_env(match) if match.group(0)[0] == '$' \
+                else self._expand_token(match)
+
+        return _expansion_pattern.sub(_expand, value)
 
     def _include(self, option: str, args: List[str]) -> None:
         """Read config from a list of other config files"""
